@@ -25,6 +25,8 @@ WATCH_FILES = ("ak/color.py", "ak/ppobj.py", "ak/hdoc.py", "ak/ghist.py")
 REQUIRED_PROBES = ("renders_checked", "tasks_completed", "gc_runs", "conf_dropped", "ref_requests",
                    "after_other_conf", "after_drop", "tasks_interleaved", "lines_vs_whole", "nocolor_checked")
 
+REAL_VS_STUB = {'real': ['ak.color, ak.ppobj, ak.hdoc, ak.ghist (report building and formatting), ak.mcaller_http (help of method callers)'], 'stub': ['id() as seen by ak.ppobj/ak.color/ak.hdoc/ak.ghist -> simulated allocator with adversarial re-use', 'cyclic GC timing -> gc.disable() + scheduled gc.collect()', 'the git repository behind ProjectRepo -> deterministic in-memory fake (sim/fakegit.py)', 'process-global state -> one fresh forked process per run, one pristine forked process per reference rendering', 'ssl.SSLContext.load_default_certs -> no-op; logging disabled']}
+
 RULE = ("each run = one seeded history of 15-60 ops over 2-4 colour configurations (explicit nested inits overriding "
         "component defaults, pending parents registered later, no_color variants), 2-4 printable objects (pretty-"
         "printer values, tables with shared enum field types / custom and sub palettes / break-by / limits, record "
